@@ -54,7 +54,7 @@ def main():
         if quick:
             files = files[::4]
         files += pipeline.repo_programs() + pipeline.corpus_programs("sem") + pipeline.corpus_programs("fun2core")[:: (3 if quick else 1)]
-        files += [f for f, _ in stagecheck.inputs(chk, 40 if quick else 1000) if "/gen_C01/" in f]
+        files += [f for f, _ in stagecheck.inputs(chk, 40 if quick else 1000) if "/gen_C01/" in f or "/shapes_C01/" in f]
         files = pipeline.corpus_programs("regress") + [f for f in files if "/corpus/regress/" not in f]
         drivers = {}
         links = {}
